@@ -106,6 +106,18 @@ def r1_builtin_maps(ctx: Ctx) -> None:
             if mr is not None:
                 ctx.check(isinstance(mr, tuple) and 0 <= mr[1] - mr[0] <= br[1] - br[0], f"{var}.map#{i}:mirror-width",
                           f"every mirror bank of {mr} must have a primary bank in {br} with the same offset (mirror not wider than primary)")
+        # Bus.map files a mapping under its identifier (and `<identifier>_mirror`): two map() calls of one bus under the same key
+        # leave the first one's banks pointing at the second one's mapping
+        keys: dict[str, int] = {}
+        for i, g in enumerate(maps):
+            ident = g.get("identifier")
+            if not isinstance(ident, str):
+                raise AnalysisError(f"{var}.map#{i}: identifier is not a string literal")
+            for key in [ident] + ([f"{ident}_mirror"] if g.get("mirror_bank_range") else []):
+                ctx.count("map_keys")
+                ctx.check(key not in keys, f"{var}.map#{i}:identifier", f"mapping key {key!r} is already used by {var}.map#{keys.get(key)}: the later "
+                          "mapping replaces the earlier one for the earlier one's banks", fact=True)
+                keys.setdefault(key, i)
         # overlapping ranges: the later map wins the lookup, RAM must be the later one
         for i, a in enumerate(maps):
             for j in range(i + 1, len(maps)):
